@@ -46,6 +46,16 @@ Theorem c04_mismatch_raises : forall fuel mr mf outs m, rloop fuel mr mf outs ac
     arr_prefix (fun i => r_lc (outs i)) k <> None /\ arr_prefix (fun i => r_cv (outs i)) k <> None.
 Proof. exact mismatch_raises. Qed.
 
+(* mixed numeric kinds: per-run vectors of rationals with common denominator c (integer arrays and float arrays
+   holding dyadic values k/c, in any order) are decided by the integer model on c * values: the loop commutes
+   with scaling every lc / cv entry by c (same stop, same error run), and for c <> 0 scaling is injective, so
+   the scaled totals determine the totals. The harness asks the engine with c = 4. *)
+Theorem c04_scale : forall c fuel mr mf outs,
+  run_loop fuel mr mf (fun i => scale_run c (outs i)) = scale_outcome c (run_loop fuel mr mf outs).
+Proof. exact run_loop_scale. Qed.
+Theorem c04_scale_inj : forall c x y, c <> 0%Z -> scale_ov c x = scale_ov c y -> x = y.
+Proof. exact scale_ov_inj. Qed.
+
 (* statistics are definitional in the model: population variance, rates *)
 Theorem c04_statistics : forall ws a n T,
   pvar ws = Qdiv (qsum (map (fun w => Qmult (Qminus (inject_Z w) (mean ws)) (Qminus (inject_Z w) (mean ws))) ws)) (qn (length ws)) /\
@@ -65,3 +75,4 @@ Proof. vm_compute. reflexivity. Qed.
 Print Assumptions c04_stop_exact. Print Assumptions c04_default_once. Print Assumptions c04_counts.
 Print Assumptions c04_aggregate. Print Assumptions c04_sums. Print Assumptions c04_sum_entries.
 Print Assumptions c04_mismatch_iff. Print Assumptions c04_mismatch_raises. Print Assumptions c04_statistics.
+Print Assumptions c04_scale. Print Assumptions c04_scale_inj.
